@@ -1,7 +1,7 @@
 (** C09 — Rebalancing trades the portfolio exactly onto its target. *)
 From Coq Require Import ZArith QArith String List Sorted Permutation.
 From QS Require Import theories.Num theories.Position theories.Portfolio theories.Fees theories.Sizer theories.PCM
-  proofs.SizerProofs proofs.PcmProofs.
+  proofs.SizerProofs proofs.PcmProofs theories.Spec proofs.SpecTarget.
 Import ListNotations.
 Open Scope Z_scope.
 
@@ -55,6 +55,20 @@ Print Assumptions zero_weight_target_long_only.
 Theorem zero_weight_target_long_short : forall E fee p, (0 < p)%Q -> ls_qty E fee 0 p = 0.
 Proof. exact ls_zero_qty. Qed.
 Print Assumptions zero_weight_target_long_short.
+
+(** ... and in the rules simulator that sessions refine (C08): when the pending orders of a rebalance
+    are filled at the next open - sells first, i.e. in another order than generated - the holdings of
+    EVERY asset equal the target (0 for assets outside it) *)
+Theorem after_the_next_open_holdings_equal_the_target :
+  forall fee t s st target st' fs a,
+    NoDup (map fst (st_hold st)) -> NoDup (map fst target) ->
+    (forall x, In x (map fst (st_hold st)) -> In x (map fst target)) ->
+    st_pending st = rebalance_orders target (st_hold st) ->
+    Spec.fill_all fee t s (mkS (st_cash st) (st_hold st) [])
+      (filter (fun o => snd o <? 0) (st_pending st) ++ filter (fun o => negb (snd o <? 0)) (st_pending st)) = Some (st', fs) ->
+    hold_of a (st_hold st') = z_find a target.
+Proof. exact next_open_reaches_target. Qed.
+Print Assumptions after_the_next_open_holdings_equal_the_target.
 
 (** [sorted(...)] as modelled: a permutation, ascending *)
 Theorem sort_is_sorted_permutation : forall (l : list (string * Z)),
